@@ -465,13 +465,26 @@ def standin_final_density_scenarios(tier, seed):
         ("multi-qubit measurement, per-moment noise", cirq.Circuit(cirq.X(q[1]) ** 0.5, cirq.X(q[2]) ** 0.5, cirq.measure(q[0], q[2], key="k")), pd),
         ("multi-qubit measurement, no noise", cirq.Circuit(cirq.X(q[1]) ** 0.5, cirq.X(q[2]) ** 0.5, cirq.CZ(q[1], q[2]), cirq.measure(q[1], q[2], key="k"), cirq.H(q[2])), None),
     ]
+    scen += [
+        ("classical control after an asymmetric preparation, no noise", cirq.Circuit(cirq.X(q[0]) ** 0.3, cirq.T(q[0]), cirq.measure(q[0], key="k"), cirq.Y(q[1]).with_classical_controls("k") ** 0.5 if False else cirq.X(q[1]).with_classical_controls("k"), cirq.Y(q[1]) ** 0.3, cirq.H(q[2])), None),
+        ("two controls on two keys, no noise", cirq.Circuit(cirq.H(q[0]), cirq.X(q[2]) ** 0.5, cirq.measure(q[0], key="k"), cirq.measure(q[2], key="m"), cirq.X(q[1]).with_classical_controls("k"), cirq.Z(q[0]).with_classical_controls("m"), cirq.H(q[0])), None),
+    ]
     cases, fails = 0, []
+    import itertools as _it
+    runs = []
     for name, c, nm in scen:
+        runs.append((name, c, nm, None))
+        if nm is None:
+            # an explicit qubit order (every permutation of the circuit's qubits): the result is the same state with its axes permuted
+            for perm in _it.permutations(sorted(c.all_qubits())):
+                runs.append((name + f", qubit_order={[str(x) for x in perm]}", c, nm, list(perm)))
+    for name, c, nm, explicit in runs:
         cases += 1
-        order = sorted(c.all_qubits())
+        order = explicit or sorted(c.all_qubits())
         try:
-            got = cirq.final_density_matrix(c, noise=nm, ignore_measurement_results=True, dtype=np.complex128)
-            noisy = cirq.Circuit(nm.noisy_moments(c, order)) if nm is not None else c
+            kw = {} if explicit is None else {"qubit_order": explicit}
+            got = cirq.final_density_matrix(c, noise=nm, ignore_measurement_results=True, dtype=np.complex128, **kw)
+            noisy = cirq.Circuit(nm.noisy_moments(c, sorted(c.all_qubits()))) if nm is not None else c
             want = sum(r for _, r in ref_density_branches(noisy, order))
         except Exception as ex:
             fails.append(dict(args=dict(scenario=name, circuit=repr(c)), failed="raised", clause=f"raised {ex!r}"))
@@ -479,7 +492,7 @@ def standin_final_density_scenarios(tier, seed):
         if not np.allclose(got, want, atol=1e-6):
             fails.append(dict(args=dict(scenario=name, circuit=repr(c)), failed="final_density_matrix-differs",
                               clause="cirq.final_density_matrix(circuit, noise=m, ignore_measurement_results=True) differs from the measurement-averaged state of the circuit m.noisy_moments produces"))
-    return dict(function="cirq-core/cirq/sim/mux.py:final_density_matrix", case="final-density-scenarios", bound=f"{len(scen)} fixed scenarios", cases=cases, distinct=cases,
+    return dict(function="cirq-core/cirq/sim/mux.py:final_density_matrix", case="final-density-scenarios", bound=f"{len(scen)} fixed scenarios; the noiseless ones under every explicit qubit order", cases=cases, distinct=cases,
                 failures=len(fails), exhaustive=True, _fails=fails)
 standin_final_density_scenarios.prop = "C09"
 
